@@ -276,6 +276,54 @@ func (p *CtxProbe) Probe(ctx context.Context) error {
 	return nil
 }
 
+// a long-lived connection over the stream transport the binaries' in-process pools use
+// (jsonrpc2.ServePipe): a few megabytes of calls in both directions, each answered with its own
+// payload - traffic volume is no reason for a call to stay unanswered
+func c14LongLived() vh.Unit {
+	return vh.Unit{Name: "long-lived-stream-connection", Run: func(u *vh.U) {
+		vsched.SetVirtualClock(false)
+		a, b := jsonrpc2.ServePipe()
+		recvA := &vh.Receiver{Side: "a", Own: a, Handled: map[string]int{}}
+		recvB := &vh.Receiver{Side: "b", Own: b, Handled: map[string]int{}}
+		if err := a.Server.Register("", recvA); err != nil {
+			panic(err)
+		}
+		if err := b.Server.Register("", recvB); err != nil {
+			panic(err)
+		}
+		defer a.Codec.Close()
+		defer b.Codec.Close()
+		payload := strings.Repeat("z", 4096)
+		const rounds = 400 // x 2 directions x ~8 kB per call = ~6.5 MB over the connection
+		for i := 0; i < rounds; i++ {
+			for _, side := range []*jsonrpc2.Remote{a, b} {
+				token := fmt.Sprintf("%d-%s", i, payload)
+				var got string
+				var err error
+				if p := vh.Recover(func() {
+					_, err = vh.Watched(fmt.Sprintf("echo call %d", i), func() (struct{}, error) {
+						return struct{}{}, side.Call(context.Background(), &got, "echo", token)
+					})
+				}); p != "" {
+					err = fmt.Errorf("%s", p)
+				}
+				u.R.Evaluations++
+				u.R.Transitions++
+				if err != nil || got != token {
+					u.R.States++
+					u.R.Traces++
+					u.Violate("rpc/call-never-returned", fmt.Sprintf("call %d (about %d kB had crossed the connection): err=%v, reply matches=%v", i, i*16, err, got == token), nil)
+					return
+				}
+			}
+		}
+		u.R.States++
+		u.R.Traces++
+		u.Observe("long-lived ok")
+		u.Sample("400 rounds of 4 kB echo calls in both directions over jsonrpc2.ServePipe")
+	}}
+}
+
 func init() {
 	vh.Register(&vh.Check{
 		ID: "C14", Level: "model_checking",
@@ -298,7 +346,7 @@ func init() {
 			if tier == "thorough" {
 				pb = 3
 			}
-			us = append(us, c14PendingLimit(pb), c14Local())
+			us = append(us, c14PendingLimit(pb), c14Local(), c14LongLived())
 			// many requests in flight at once, each of whose handlers calls back over the same
 			// connection (width instead of interleavings: schedules with at most one deviation)
 			var wide []string
